@@ -316,16 +316,16 @@ func init() {
 	stubs := []string{"time (tick clock per API call)"}
 	assume := []string{"reference MARS and call-level state machine in ref/mars.go, written from the ICWS'94 draft (appendix A/B of DESIGN.md)",
 		"states the property text leaves undefined are not compared exactly (DESIGN.md 8.1); after such a call the reference is re-synchronised from the observed state"}
-	register(&PropSpec{ID: "C13", Engine: "battle", Fn: caseHistory, Quick: 200000, Thorough: 30000000, Level: "exploration",
+	register(&PropSpec{ID: "C13", Engine: "battle", Fn: caseHistory, Quick: 3000000, Thorough: 100000000, Level: "exploration",
 		Rule: "a case = configuration (tiny core, limits, process and cycle limits) + a history of 1..31 API calls (add, spawn with any index/offset, RunCycle, Run, Reset, queries, caller-data mutation) + optional reset-vs-fresh twin; after every call the full observable state is compared with the reference model (strict zone) or checked against invariants (lenient zone); non-trivial = at least one warrior added and one cycle/run call; distinct = distinct (configuration, call list)",
 		Real: real, Stubs: stubs, Assume: assume})
-	register(&PropSpec{ID: "C15", Engine: "battle", Fn: caseHistory, Quick: 200000, Thorough: 30000000, Level: "exploration",
+	register(&PropSpec{ID: "C15", Engine: "battle", Fn: caseHistory, Quick: 3000000, Thorough: 100000000, Level: "exploration",
 		Rule: "same histories as C13 with a recording listener and the bundled StateRecorder attached; per call the report stream is split into task windows and compared with the reference event stream (changed cells subset of reported cells subset of cells the instruction may touch; announced tasks; termination reports), the recorder is compared with the last-writer fold after every strictly-defined call; non-trivial and distinct as C13",
 		Real: real, Stubs: stubs, Assume: assume})
-	register(&PropSpec{ID: "C02", Engine: "battle", Fn: caseBattle, Quick: 60000, Thorough: 10000000, Level: "exploration",
+	register(&PropSpec{ID: "C02", Engine: "battle", Fn: caseBattle, Quick: 800000, Thorough: 40000000, Level: "exploration",
 		Rule: "a case = a well-formed battle (1..4 warriors of arbitrary code, arbitrary offsets, core 3..64 or 80/800/8000, process limit 1..4 or larger, cycle limit 1..40) run twice under two different driving schedules (Run(); RunCycle loop; steps+queries then Run()); every call is compared with the reference scheduler (core, queues, alive flags, counters, executed task sequence) and the two final states with each other; non-trivial = a cycle was executed; distinct = distinct (configuration, warriors, offsets, schedule)",
 		Real: real, Stubs: stubs, Assume: assume})
-	register(&PropSpec{ID: "C04", Engine: "battle", Fn: caseHostile, Quick: 100000, Thorough: 15000000, Level: "exploration",
+	register(&PropSpec{ID: "C04", Engine: "battle", Fn: caseHostile, Quick: 600000, Thorough: 30000000, Level: "exploration",
 		Rule: "a case = a configuration (one third drawn from the whole space 0..2^20 per field, the rest valid tiny cores) + hostile warriors (all instruction forms, edge fields, SPL storms, decrements through zero, arithmetic at M-1) + a history of spawns at any offset, cycles, runs, resets; creation must return an error or an instance; invariants (fields and queued PCs below core size, queue length within the process limit, cycle cap, living count, alive iff queue non-empty, no panic, bounded progress) are evaluated after every call; non-trivial = every case; distinct = distinct (configuration, call list)",
 		Real: real, Stubs: stubs, Assume: assume})
 }
